@@ -3099,7 +3099,7 @@ def run(chk):
     chk.rule(R_PARAM, 'functions that mutate a parameter are only handed per-call objects (never an object rooted in shared '
              'state outside build-time code)', floor=25, control=True)
     chk.rule(R_CACHE, 'model cache: one writer, key covers every parameter but the stored model, lookup key built the same '
-             'way, write follows a miss', floor=4, control=True)
+             'way, write follows a miss', floor=3, control=True)
     chk.rule(R_AMB, 'clock / random / environment reads only as `if reference is None: reference = datetime.now()`',
              floor=30, control=True)
     chk.rule(R_DEC, 'every Decimal operation runs under an explicit context (@precision / with localcontext / all callers)',
